@@ -55,7 +55,7 @@ CHECKS = {
             "Theorems parse_total / interp_terminates / parse_never_raises / modes_agree: for every rule table accepted by the decidable check WF.wellFormed (no left recursion incl. through implicit trivia - certified by a rank table -, no unbounded repetition over a nullable body, non-nullable WHITESPACE/COMMENT, no undefined reference), every defined start rule, every input and every start position inside it, there is a recursion budget from which on both Parser.parse (L1) and the generated parse() (LG) answer - Pairs or PestParsingError, never another exception (the models have explicit IndexError/UnboundLocalError/AssertionError/KeyError outcomes and they are proved unreachable) - and the two agree; the answer is a function of (grammar, rule, input, start position) (interp_deterministic; history independence of the real objects is C15). The run evaluates WF.wellFormed and the other hypotheses through the model on every grammar and on its optimized form (evidence hyp:*): the harness's own well-formedness filter is contained in it on all but a handful, which are counted. Checked on the implementation: all four modes on well-formed grammars - only PestParsingError escapes, the repeated call is equal, every parse ends within the time limit (a timeout is re-run with a 300 s limit before it is reported). Not a theorem: CPython's own recursion limit (the property excludes inputs beyond the budget), and termination of the optimized table when wellFormed rejects it although the original is accepted (then it rests on C02).",
             "Lean 4 termination proof (progress measure + nullability/rank certificates) + no-exception proofs through L1 ⊑ L0 and LG ≈ L1; " + T_MODEL),
     "C08": ("core", "proof",
-            'Theorems (L0, fuel-independent, every grammar/input/state): group_id, seq_assoc/seq_flatten, choice_assoc/choice_flatten, dup_choice, never_seq, never_notpred (NEVER = any literal that fails at every position of the input; under total implicit trivia, and pointwise without), extract_silent (new silent rule, fresh and unreferenced), closed under any number of simultaneous rewrites at any depth of any rule bodies (Cong, GrammarRel, rewrites_preserve_parse) and under chaining (GEquiv.trans); lifted to the interpreter model and the generated-code model (grammar_rewrites_preserve_interp / _gen: same verdict, same end position, same trees up to tags). Counter-examples proved in the file show which hypotheses are needed (nullable WHITESPACE, a() ~ c). Tags are excluded from the theorem because of the open finding tag-lost-on-backtrack (known_findings.txt). The same run is the metamorphic test on the implementation: rewrites at random sites of random grammars and of the bundled grammars (ASTs recovered from the real trees, printer round-trip checked), original vs rewritten in all four modes, and exact correspondence of every result with the models. Optimized modes rest on C02 for the step optimize(g) ~ g.',
+            'Theorems (L0, fuel-independent, every grammar/input/state): group_id, seq_assoc/seq_flatten, choice_assoc/choice_flatten, dup_choice, never_seq, never_notpred (NEVER = any literal that fails at every position of the input; under total implicit trivia, and pointwise without), extract_silent (new silent rule, fresh and unreferenced), closed under any number of simultaneous rewrites at any depth of any rule bodies (Cong, GrammarRel, rewrites_preserve_parse) and under chaining (GEquiv.trans); lifted to the interpreter model and the generated-code model (grammar_rewrites_preserve_interp / _gen: same verdict, same end position, same trees up to tags). Counter-examples proved in the file show which hypotheses are needed (nullable WHITESPACE, a() ~ c). The equivalences are up to tags (L0 has none); for tags Props/Tags.lean proves what the rewrites rely on since the repair 48c96e3 - every abandoned alternative, optional, repetition item, predicate and trivia attempt gives the pending tags back (interp_tag_frame, choice_alternative_sees_same_tags and siblings, for L1 and LG); that original and rewritten grammar put each tag on the same pair is compared on the implementation in all modes, not proved. The same run is the metamorphic test on the implementation: rewrites at random sites of random grammars and of the bundled grammars (ASTs recovered from the real trees, printer round-trip checked), original vs rewritten in all four modes, and exact correspondence of every result with the models. Optimized modes rest on C02 for the step optimize(g) ~ g.',
             "Lean 4 proof: big-step reading of L0 (Conv), simulation between two grammars (Sim.conv), congruence; lifted through L1 ⊑ L0 and LG ≈ L1; " + T_MODEL),
     "C09": ("stack", "proof",
             "Theorems (all histories, unbounded): the delta-encoded Stack model refines a full-copy stack (stack_refines, inv_apply, abs_apply), "
